@@ -164,11 +164,20 @@ Proof.
       exfalso. apply existsb_exists in E. destruct E as (p & Hp & Ep). apply Z.eqb_eq in Ep. apply Hnot. rewrite <- Ep. apply in_map. exact Hp.
 Qed.
 
+Lemma insert_sorted_in {A} (leb : A -> A -> bool) x l y : In y (insert_sorted leb x l) <-> y = x \/ In y l.
+Proof.
+  induction l as [|z r IH]; cbn [insert_sorted]; [cbn; intuition|]. destruct (leb x z); cbn [In]; [intuition|]. rewrite IH. intuition.
+Qed.
+Lemma isort_by_in {A} (leb : A -> A -> bool) l y : In y (isort_by leb l) <-> In y l.
+Proof.
+  induction l as [|x r IH]; cbn [isort_by]; [reflexivity|]. rewrite insert_sorted_in, IH. cbn [In]. intuition.
+Qed.
+
 Theorem residue_matches_exact g l mu :
   In mu (residue_matches g l) <->
   (map fst mu = l_res_nodes l /\ NoDup (map snd mu) /\ (forall n, In n (map snd mu) -> In n (map mn_key (m_nodes g)))) /\
   induced_ok g l mu = true /\ order_ok g mu = true.
-Proof. unfold residue_matches. rewrite filter_In, assignments_spec, andb_true_iff. tauto. Qed.
+Proof. unfold residue_matches. rewrite isort_by_in, filter_In, assignments_spec, andb_true_iff. tauto. Qed.
 
 (* every link atom identifies exactly one atom, else the match contributes nothing *)
 Theorem match_atoms_unique g mu las m :
